@@ -29,8 +29,13 @@ def run(ctx, plans):
     def one(job):
         mx, nops, cfg, seed = job
         tf = os.path.join(tdir, "t_%d_%d.ndjson" % (mx, seed))
-        with open(tf, "w") as fo:
-            r = subprocess.run([exe, str(mx), str(nops), str(seed)], stdout=fo, stderr=subprocess.PIPE, env=env, text=True, timeout=300, preexec_fn=vlib._die_with_parent)
+        # (a trace of 3000 operations takes well under a second; a driver that does not come back means the code under test loops)
+        limit = max(30, nops // 200)
+        try:
+            with open(tf, "w") as fo:
+                r = subprocess.run([exe, str(mx), str(nops), str(seed)], stdout=fo, stderr=subprocess.PIPE, env=env, text=True, timeout=limit, preexec_fn=vlib._die_with_parent)
+        except subprocess.TimeoutExpired:
+            return (job, tf, 0, "hang: the recorded run did not end within %d s (unbounded loop in the timer manager)" % limit)
         nev = sum(1 for _ in open(tf))
         if r.returncode != 0:
             return (job, tf, nev, "crash rc=%d %s" % (r.returncode, r.stderr[-300:]))
@@ -56,3 +61,4 @@ def run(ctx, plans):
             m = vlib.Mismatch(0, 0, "trace:" + why[:60], [], [], ["trace", job[0], job[1], job[3]])
             from vlib import Beh
             ctx.violations.append((m, Beh(dict(trace=tf, why=why), [dict(e=["trace", tf], x=[])], 0), lambda c: [], "tmrtrace", "trace"))
+    ctx.checkpoint()
